@@ -15,6 +15,8 @@ for f in sorted(glob.glob(os.path.join(V, "known_findings.d", "*.json"))):
     for e in json.load(open(f)).get("findings", []):
         e = dict(e)
         e["source"] = "known_findings.d/" + os.path.basename(f)
+        if e.get("status") == "fixed" and not str(e.get("what", "")).startswith("fixed: property="):
+            e["what"] = "fixed: property=%s %s %s" % (e.get("property"), e.get("commit", "?"), e.get("what", ""))
         allf.append(e)
 doc = {"_comment": "Single known-findings file read by every check (tools/vlib.py load_findings). Rebuilt by tools/merge_findings.py from "
                    "known_findings.d/*.json; never written at run time. `open` entries print KNOWN-FINDING and are subtracted from a run's "
